@@ -16,6 +16,11 @@ Theorem C15_select_is_selection : forall pats names k,
 Proof. exact select_names_In. Qed.
 Print Assumptions C15_select_is_selection.
 
+(* a field matched by several selectors is selected once *)
+Theorem C15_select_no_repeats : forall pats names, NoDup names -> NoDup (select_names pats names).
+Proof. exact select_names_nodup. Qed.
+Print Assumptions C15_select_no_repeats.
+
 Theorem C15_select_order : forall p ps names,
   select_names (p :: ps) names = filter p names ++ select_names ps (filter (fun n => negb (p n)) names).
 Proof. exact select_names_order. Qed.
